@@ -29,6 +29,18 @@ static void op_dc_div_qr_n(int argc, char **argv)
   if (!gbuf_ok(np, 2 * n) || !gbuf_ok(dp, n) || !gbuf_ok(qp, n) || !gbuf_ok(tp, n + 8)) outs("REDZONE");
   gbuf_free(np); gbuf_free(dp); gbuf_free(qp); gbuf_free(tp);
 }
+/* mpn_sb_div_qr nn N dn D : the schoolbook routine called directly (dn >= 3, D normalised): qh, quotient (nn-dn limbs), remainder (dn limbs) */
+static void op_sb_div_qr(int argc, char **argv)
+{
+  (void)argc; mp_size_t nn = arg_l(argv[1]), dn = arg_l(argv[3]);
+  mp_ptr np = gbuf_alloc(nn), dp = gbuf_alloc(dn), qp = gbuf_alloc(nn - dn + 1);
+  parse_limbs(argv[2], np, nn); parse_limbs(argv[4], dp, dn);
+  mp_limb_t dinv; mpir_invert_pi1(dinv, dp[dn - 1], dp[dn - 2]);
+  mp_limb_t qh = mpn_sb_div_qr(qp, np, nn, dp, dn, dinv);
+  outul(qh); out_limbs(qp, nn - dn); out_limbs(np, dn);
+  if (!gbuf_ok(np, nn) || !gbuf_ok(dp, dn) || !gbuf_ok(qp, nn - dn + 1)) outs("REDZONE");
+  gbuf_free(np); gbuf_free(dp); gbuf_free(qp);
+}
 static void op_invert_pi1(int argc, char **argv)
 { (void)argc; mp_limb_t d1 = arg_ul(argv[1]), d0 = arg_ul(argv[2]), v; mpir_invert_pi1(v, d1, d0); outul(v); }
 static void op_3by2(int argc, char **argv)
@@ -194,7 +206,7 @@ static void op_divcheck(int argc, char **argv) { (void)argc; (void)argv; outl(1)
 
 const op_t ops_div[] = {
   {"invert_limb", op_invert_limb}, {"udiv_preinv1", op_preinv1}, {"udiv_preinv2", op_preinv2},
-  {"invert_pi1", op_invert_pi1}, {"mpn_dc_div_qr_n", op_dc_div_qr_n}, {"udiv_3by2", op_3by2},
+  {"invert_pi1", op_invert_pi1}, {"mpn_sb_div_qr", op_sb_div_qr}, {"mpn_dc_div_qr_n", op_dc_div_qr_n}, {"udiv_3by2", op_3by2},
   {"mpn_divrem_1", op_divrem_1}, {"mpn_mod_1", op_mod_1}, {"mpn_tdiv_qr", op_tdiv_qr}, {"mpn_divrem", op_divrem},
   {"mpn_divexact_by3", op_divexact_by3},
   {"mpz_tdiv_qr", op_tdiv_qr_z}, {"mpz_fdiv_qr", op_fdiv_qr_z}, {"mpz_cdiv_qr", op_cdiv_qr_z},
